@@ -1,3 +1,4 @@
 SPECIFICATION TSpec
 POSTCONDITION TraceAccepted
 CHECK_DEADLOCK FALSE
+CONSTANT MaxHist = 0
